@@ -54,6 +54,10 @@ def check(model, tier):
     _processor.r07_8_materialize_as(ctx, rule="R08.18")  # a node persisted twice under one name is rejected by the database
     _processor.r07_11_operands_processed(ctx, rule="R08.19")  # ORDER BY / LIMIT emission incl. the logical-column hooks of engine subclasses
     _sqlemit.r_select_never_empty(ctx, "R08.20")
+    _sqlemit.r_logical_column_hooks(ctx, "R08.22")
+    from ..rules import expressions as _expressions
+
+    _expressions.r12_2_function_lookup(ctx, rule="R08.21")  # a function name resolves the documented way or the query names a function the database lacks
     _sqlemit.r02_2_join_payload(ctx, rule="R08.15")  # every column a join predicate may use is in the mapping it is converted against
     from ..rules import purity, structure
     from .common import SQL_ENGINE
